@@ -310,6 +310,8 @@ def run(tier):
     shapes = tree.shapes_upto(nmax)
     t = core.Tally()
     jobs = [(MOD, "job", {"shapes": c, "text": True, "reprs": True}) for c in core.chunks(shapes[::-1], core.NPROC * 6)]
+    # the same inputs once more in the opposite order and another chunking: results must not depend on what ran before
+    jobs += [(MOD, "job", {"shapes": c, "text": True, "reprs": False}) for c in core.chunks(shapes, core.NPROC * 2 + 1)]
     core.run_pool(jobs, 0, into=t)
     core.run_pool([(MOD, "job", {"shapes": c, "text": False, "reprs": False}) for c in core.chunks(tree.shapes_upto(5), core.NPROC)], 1, into=t)
     cov = {
